@@ -125,6 +125,34 @@ def case_arnoldi(T, n, max_iters, variant=0, complex_=False, zero_at=None, tol="
     _check(T, "arnoldi", Qc.to_dense(), Hc.to_dense(), Q, Hm, A, n, max_iters, steps, zero_at, tolv)
 
 
+def case_two_calls(T, n, max_iters):
+    """two factorisations of the same size, step count and dtype in one process; both results are examined only after the second call has returned
+    (the returned Q and H are lazy operators: they may not share storage with later calls)"""
+    dt = 'float64'
+    outs, params = [], []
+    for c in range(2):
+        Q = K.basis(T, n, c, False, dt)
+        z = K.S(T, 0)
+        rows = [[z for _ in range(n)] for _ in range(n)]
+        for i in range(n):
+            for j in range(n):
+                if i <= j:
+                    rows[i][j] = T.var(f"c{c}h{i}{j}")
+                elif i == j + 1:
+                    rows[i][j] = T.var(f"c{c}h{i}{j}", positive=True)
+                    T.assume(rows[i][j] >= 1e-2)
+                    T.assume(rows[i][j] <= 1e2)
+        Hm = K.mat(T, rows, dt)
+        s = T.var(f"c{c}s", positive=True)
+        A = Q @ Hm @ Q.T
+        outs.append(arnoldi(cola.ops.Dense(A), s * Q[:, 0], max_iters=max_iters, tol=1e-9))
+        params.append((Q, Hm, A))
+    for c in (0, 1):
+        Qc, Hc, info = outs[c]
+        Q, Hm, A = params[c]
+        _check(T, f"call {c + 1} (examined after both calls)", Qc.to_dense(), Hc.to_dense(), Q, Hm, A, n, max_iters, info.get("iterations", 1) - 1, None, 1e-9)
+
+
 def case_real_operator_complex_start(T, n, max_iters):
     """real non-symmetric A (concrete generic rationals) with a complex start vector s * d: complex Krylov basis of a real operator"""
     from fractions import Fraction as Fr
@@ -231,6 +259,8 @@ def cases(tier, seed):
             out.append((f"fixedtol:n{n}m{m}", case_arnoldi, dict(n=n, max_iters=m, tol=1e-7)))
             out.append((f"class:n{n}m{m}", case_arnoldi, dict(n=n, max_iters=m, tol=1e-7, via="class")))
         out.append((f"tol0:n{n}m{n + 3}", case_arnoldi, dict(n=n, max_iters=n + 3, tol=1e-18)))
+        out.append((f"two-calls:n{n}m{n}", case_two_calls, dict(n=n, max_iters=n), dict(partial_ok=True)))
+        out.append((f"two-calls:n{n}m{n - 1}", case_two_calls, dict(n=n, max_iters=n - 1), dict(partial_ok=True)))
         if n == 2:
             out.append((f"tiny:n{n}", case_arnoldi, dict(n=n, max_iters=n, tol=1e-7, tiny=True), dict(validate=False)))
         for z in range(1, n - 1):
